@@ -33,8 +33,9 @@ class PartSpec(Shape):
 
 
 PIECES = {
-    "key": [("key", ("long", "key.equal_to")), ("key", ("short", "key.equal_to")), ("key", ("short", "key.in")), ("key", ("long", "key.length.less_than"))],
-    "index": [("index", ("long", "index.equal_to")), ("index", ("short", "index.greater_than"))],
+    "key": [("key", ("long", "key.equal_to")), ("key", ("short", "key.equal_to")), ("key", ("short", "key.in")), ("key", ("long", "key.length.less_than")),
+            ("condition", ("long", "key.in"))],          # the generic `condition` long form may hold a key / index condition too
+    "index": [("index", ("long", "index.equal_to")), ("index", ("short", "index.greater_than")), ("condition", ("long", "index.less_than"))],
     "value": [("value", ("long", "value.less_than")), ("value", ("short", "value.equal_to")), ("value", ("short", "value.length.equal_to")),
               ("condition", ("long", "value.greater_than"))],
     "label": [("label", "label")],
@@ -54,7 +55,7 @@ def family():
             for b in singles[i + 1:]:
                 ka = [k for k in kinds if a in PIECES[k]][0]
                 kb = [k for k in kinds if b in PIECES[k]][0]
-                if ka != kb and (a[1][0] == "long" or b[1][0] == "long" or "label" in (a[1], b[1])):
+                if ka != kb and a[0] != b[0] and (a[1][0] == "long" or b[1][0] == "long" or "label" in (a[1], b[1])):
                     out.append((ptype, [a, b]))
     return out
 
